@@ -52,7 +52,7 @@ def run_packages(ctx, pkgs, procs=8, timeout=3600):
     t = time.time()
     with ThreadPoolExecutor(max_workers=procs) as ex:
         results = list(ex.map(lambda a: _run_shard(ctx, a[0], a[1], timeout), enumerate(shards)))
-    res = {p["id"]: {"built": None, "tests": [], "crashed": None, "runfailed": None} for p in pkgs}
+    res = {p["id"]: {"built": None, "tests": [], "crashed": None, "runfailed": None, "passes": None} for p in pkgs}
     for evs in results:
         for e in evs:
             r = res[e["id"]]
@@ -64,6 +64,8 @@ def run_packages(ctx, pkgs, procs=8, timeout=3600):
                 r["crashed"] = e
             elif e["ev"] == "RunFailed":
                 r["runfailed"] = e
+            elif e["ev"] == "Passes":
+                r["passes"] = e["passes"]
     log("[exec] %d packages in %.0fs on %d procs" % (len(pkgs), time.time() - t, procs))
     return res
 
